@@ -440,7 +440,7 @@ def run_impl(bdir, d, case):
 
 def gen_cases(r, tier, res):
     cases = []
-    nworlds = 45 if tier == "quick" else 450
+    nworlds = 150 if tier == "quick" else 1500
     for g in range(nworlds):
         world = gen_world(r, res)
         group = "w%d" % g
@@ -556,7 +556,15 @@ def check(res, tier, replay=None):
                 res.dist("impl:" + v)
                 res.dist("model-asis:" + " ".join(c.asis.split()[:2 if c.asis.startswith("error") else 1]))
                 if c.kind.startswith("variant") or c.kind.startswith("exh:ok"):
-                    res.dist("cpu-first-appearance-ascending:%s" % cpu_first_appearance_ascending(c.specs))
+                    asc = cpu_first_appearance_ascending(c.specs)
+                    res.dist("cpu-first-appearance-ascending:%s" % asc)
+                    # reading of the crash hypothesis of the _partial theorems: on a
+                    # consistent union the code as it is crashes exactly when the CPUs of
+                    # some loom do not first appear in ascending index order
+                    if asc != (c.asis != "crash"):
+                        found = True
+                        viol("crash-hypothesis-reading:" + c.kind,
+                             "model asis=%s but first-appearance-ascending=%s" % (c.asis[:40], asc), c.replay())
                 if ci % 97 == 0:
                     res.sample({"kind": c.kind, "streams": c.replay().split("\n")[:3], "ovniemu": v,
                                 "model_asis": c.asis[:80], "model_fixed": c.fixed[:80]}, limit=8)
